@@ -704,7 +704,7 @@ func c24gen(r *rand.Rand, tier string, emit func(string)) {
 	thorough := tier == "thorough"
 	scale := 1
 	if thorough {
-		scale = 12
+		scale = 10
 	}
 	// 1. precedence of every token value (ties the extracted source table to the linked go/token)
 	for v := 0; v < 90; v++ {
@@ -798,10 +798,10 @@ func c24gen(r *rand.Rand, tier string, emit func(string)) {
 				fileOp("goroot", f, 1)
 			}
 		}
-		for i := 0; i < 330; i++ {
+		for i := 0; i < 700; i++ {
 			fileOp("goroot", gl[r.Intn(len(gl))], 1-i%6/5)
 		}
-		for i := 0; i < 110; i++ {
+		for i := 0; i < 220; i++ {
 			fileOp("repo", rl[r.Intn(len(rl))], 1-i%6/5)
 		}
 	}
@@ -812,12 +812,12 @@ func c24gen(r *rand.Rand, tier string, emit func(string)) {
 		emit(fmt.Sprintf("src %s %d | %s", c24hx(src), m, c24kindsOf(name, src)))
 	}
 	// 5. grammar-generated files
-	for i := 0; i < 260*scale; i++ {
+	for i := 0; i < 500*scale; i++ {
 		src := c24genFile(r, 1+r.Intn(6), 1+r.Intn(3), i%3 != 0)
 		srcOp("gen.go", []byte(src), 1-i%5/4)
 	}
 	// 6. mutations of real and generated files: token level, byte level, truncation
-	for i := 0; i < 320*scale; i++ {
+	for i := 0; i < 640*scale; i++ {
 		var base []byte
 		if i%3 == 0 {
 			base = []byte(c24genFile(r, 1+r.Intn(4), 1+r.Intn(2), i%2 == 0))
